@@ -95,3 +95,37 @@ theorem decScalar_pack (e : Endian) (p : Prim) (i : Int) (pre post bs : Bytes)
 
 end Py
 end Prophy
+
+namespace Prophy.Py
+
+theorem slice_length (data : Bytes) (pos n : Nat) (h : pos + n ≤ data.length) : (slice data pos n).length = n := by
+  simp [slice]; omega
+
+theorem decScalar_total (e : Endian) (p : Prim) (data : Bytes) (pos : Nat) :
+    (∃ r, decScalar e p data pos = .ok r) ∨ decScalar e p data pos = .error .prophy := by
+  unfold decScalar
+  split
+  · right; rfl
+  · rename_i h
+    left
+    have hl : (slice data pos p.size).length = p.size := slice_length data pos p.size (by omega)
+    simp [unpack, hl, bind, Except.bind, pure, Except.pure]
+
+theorem decSizer_le_guard (e : Endian) (p : Prim) (data : Bytes) (pos : Nat) (c sz : Nat)
+    (h : decSizer e p data pos = .ok (c, sz)) : c ≤ arrayGuard := by
+  unfold decSizer at h
+  cases hd : decScalar e p data pos with
+  | error x => simp [hd, bind, Except.bind] at h
+  | ok r =>
+    obtain ⟨v, s⟩ := r
+    simp only [hd, bind, Except.bind] at h
+    split at h
+    · simp at h
+    · split at h
+      · simp at h
+      · simp only [pure, Except.pure] at h
+        injection h with h
+        injection h with h1 h2
+        omega
+
+end Prophy.Py
